@@ -1545,6 +1545,30 @@ func ruleCounterNumeric(r *Run) {
 				why = "no numeric maximum over the existing media parts was found in its computation"
 			}
 			r.Check("counter-numeric", shortName(fn)+":nextImageID", st.Pos(), okc, "the restored image counter: "+why)
+			// the restore must count EVERY media name the namer can produce: the namer takes the
+			// extension from the format or, for unknown formats, from the caller's file name, so a
+			// restore that looks at the extension at all skips names the library itself wrote
+			ext := ""
+			for v := range res.Vals {
+				if c, ok := v.(*ssa.Call); ok {
+					if cal := staticCallee(c); cal != nil && cal.Pkg != nil {
+						switch cal.Pkg.Pkg.Path() + "." + cal.Name() {
+						case "path/filepath.Ext", "path.Ext", "mime.TypeByExtension":
+							// used to SELECT (compared with constants, looked up in a table), not merely
+							// cut off before the number is parsed
+							if comparedWithConst(c, 0) {
+								ext = cal.Pkg.Pkg.Path() + "." + cal.Name() + " at " + p.pos(c.Pos())
+							}
+						case "strings.HasSuffix":
+							if _, isC := c.Call.Args[1].(*ssa.Const); isC {
+								ext = "strings.HasSuffix at " + p.pos(c.Pos())
+							}
+						}
+					}
+				}
+			}
+			r.Check("counter-numeric", shortName(fn)+":nextImageID:all-extensions", st.Pos(), ext == "",
+				"the restored image counter must not depend on the media part's extension ("+ext+"): generateSafeImageFileName writes .png, .jpeg, .gif and caller-supplied extensions, and a part that is skipped here is overwritten by the next image added after Open")
 		})
 	}
 	r.Min("image_counter_restores", n, 1)
@@ -2518,6 +2542,45 @@ func ruleSizePrecedence(r *Run) {
 			}
 		}
 	}
+	// … and inside the explicit branch the flag has no say: both dimensions were given.  A read
+	// counts when its value reaches a branch condition or a returned value (not, say, a log call).
+	decides := func(in ssa.Instruction) bool {
+		v, ok := in.(ssa.Value)
+		if !ok {
+			return false
+		}
+		seen := map[ssa.Value]bool{}
+		var walk func(v ssa.Value) bool
+		walk = func(v ssa.Value) bool {
+			if seen[v] || v.Referrers() == nil {
+				return false
+			}
+			seen[v] = true
+			for _, u := range *v.Referrers() {
+				switch x := u.(type) {
+				case *ssa.If, *ssa.Return:
+					return true
+				case *ssa.UnOp, *ssa.BinOp, *ssa.Phi, *ssa.Convert, *ssa.ChangeType:
+					if walk(x.(ssa.Value)) {
+						return true
+					}
+				}
+			}
+			return false
+		}
+		return walk(v)
+	}
+	inside := ""
+	for _, l := range flagLoads {
+		for _, e := range explicit {
+			t := e.Succs[0]
+			if len(t.Preds) == 1 && t.Dominates(l.Block()) && decides(l) {
+				inside = p.pos(l.Pos())
+			}
+		}
+	}
+	r.Check("size-precedence", shortName(fn)+":explicit-branch", fn.Pos(), inside == "",
+		fmt.Sprintf("%s: %s", shortName(fn), map[bool]string{true: "the branch taken when both width and height are given never looks at the aspect-ratio flag", false: "KeepAspectRatio is read (" + inside + ") inside the branch taken when BOTH width and height are given: the extent then departs from the explicit millimetres the sizing rules promise"}[inside == ""]))
 	r.Check("size-precedence", shortName(fn), fn.Pos(), bad == "",
 		fmt.Sprintf("%s: %s", shortName(fn), map[bool]string{true: "the explicit width-and-height rule is decided before the aspect-ratio flag is looked at", false: "KeepAspectRatio is consulted (" + bad + ") before the explicit width-and-height test: with both dimensions given and the flag set, one of the requested dimensions is ignored and re-derived from the pixel ratio"}[bad == ""]))
 	r.Count("aspect_flag_reads", len(flagLoads))
@@ -3570,4 +3633,45 @@ func ruleSplitAware(r *Run) {
 		})
 	}
 	r.Min("directive_tests_on_document_template_path", n, 3)
+}
+
+// comparedWithConst: the string value v (possibly case-folded or trimmed first) is compared for
+// equality with a constant, or used as a key of a map look-up.
+func comparedWithConst(v ssa.Value, depth int) bool {
+	if depth > 4 || v.Referrers() == nil {
+		return false
+	}
+	for _, u := range *v.Referrers() {
+		switch x := u.(type) {
+		case *ssa.BinOp:
+			if x.Op == token.EQL || x.Op == token.NEQ {
+				if _, ok := x.X.(*ssa.Const); ok {
+					return true
+				}
+				if _, ok := x.Y.(*ssa.Const); ok {
+					return true
+				}
+			}
+		case *ssa.Lookup:
+			if x.Index == v {
+				return true
+			}
+		case *ssa.Phi:
+			if comparedWithConst(x, depth+1) {
+				return true
+			}
+		case *ssa.Call:
+			if cal := staticCallee(x); cal != nil && cal.Pkg != nil && cal.Pkg.Pkg.Path() == "strings" {
+				switch cal.Name() {
+				case "ToLower", "ToUpper", "TrimPrefix", "TrimSpace", "TrimLeft":
+					if comparedWithConst(x, depth+1) {
+						return true
+					}
+				case "EqualFold":
+					return true
+				}
+			}
+		}
+	}
+	return false
 }
